@@ -46,7 +46,7 @@ CFG = dict(
         "Go slices handed to the decoders have cap == len (harness clamps them), as the model's sub_ assumes",
         "allocation measure: the model counts the bytes requested by make(), by bufio.ReadBytes, by string([]byte) "
         "conversions and per appended element; Go's size classes, amortised append growth and small bookkeeping "
-        "objects are covered by the factor 4 (+4 KiB) with which runtime.MemStats.TotalAlloc of the real call is "
+        "objects are covered by the factor 4 (+8 KiB) with which runtime.MemStats.TotalAlloc of the real call is "
         "compared; runtime.makeslice is modelled as: panic for a negative length or more than 2^48 bytes, otherwise "
         "the request (the out-of-memory crash of the runtime for requests the machine cannot serve is not a value "
         "of the model: such inputs appear as an allocation measure only)",
